@@ -122,6 +122,19 @@ def reuse_buffer(fn, sig):
     buf[:] = sig
     return fn(buf)
 
+def _history_plot(bm, sig, fs):
+    """the user looks at the result between two fits (one history in three: drawing is slow); a plot may not leave a trace in the object"""
+    import zlib as _zlib
+    if _zlib.crc32(np.ascontiguousarray(np.asarray(sig)[8:24]).tobytes()) % 3 != 0 or bm.df_features is None or not bm.return_samples: return
+    import matplotlib.pyplot as _plt
+    try:
+        quiet(bm.plot, xlim=(0.0, min(2.0, (len(sig) - 1) / fs)))
+    except Exception:
+        pass
+    finally:
+        _plt.close('all')
+
+
 def object_route(sig, fs, f_range, center, method, bk, th, fek, return_samples=True, shorthand=False, variant=None, which=None):
     """the same analysis through a Bycycle object WITH A HISTORY, one of three kinds (chosen from the samples, or `variant`):
     0/1 'rebinding': constructed with other settings (other centring, boundary 0, a larger min_n_cycles), fitted on the same array object, a plot,
@@ -163,6 +176,7 @@ def object_route(sig, fs, f_range, center, method, bk, th, fek, return_samples=T
         if bk is not None:
             for k in ('amp_threshes', 'min_n_cycles'):
                 if k in bk: bm.burst_kwargs[k] = bk[k]
+        _history_plot(bm, sig, fs)          # (the old table drawn with the edited thresholds: whatever the plot does to them shows in the fit that follows)
         quiet(bm.fit, sig, fs, f_range)
         return bm.df_features
     if variant == 3:
@@ -174,6 +188,7 @@ def object_route(sig, fs, f_range, center, method, bk, th, fek, return_samples=T
             quiet(bm.fit, buf, fs, f_range)
         except Exception:
             pass
+        _history_plot(bm, buf, fs)
         buf[:] = sig
         quiet(bm.fit, buf, fs, f_range)
         return bm.df_features
